@@ -31,21 +31,29 @@ int write_amiga(Memory *memory, FILE *out)
   uint32_t n;
   uint32_t length = (memory->high_address + 1) - memory->low_address;
 
+  // Hunk sizes are in longwords: a shorter image is padded with zeros.
+  const uint32_t longwords = (length + 3) / 4;
+
   // Hunk file header.
   write_uint32(out, HUNK_HEADER); // magic_cookie
   write_uint32(out, 0x00000000);  // name_length
   write_uint32(out, 0x00000001);  // table_length
   write_uint32(out, 0x00000000);  // first_hunk
   write_uint32(out, 0x00000000);  // last_hunk
-  write_uint32(out, length / 4);  // length of code
+  write_uint32(out, longwords);  // length of code
 
   // Hunk code.
   write_uint32(out, HUNK_CODE);   // hunk_code
-  write_uint32(out, length / 4);  // length of code
+  write_uint32(out, longwords);  // length of code
 
   for (n = memory->low_address; n <= memory->high_address; n++)
   {
     putc(memory->read8(n), out);
+  }
+
+  for (n = length; n < longwords * 4; n++)
+  {
+    putc(0, out);
   }
 
   // Hunk end.
